@@ -81,6 +81,13 @@ impl CodeCache {
     )
   }
 
+  /// Host addresses of the entry trampoline and of the common exit code
+  #[cfg(gb_dynarec_verif)]
+  pub fn verif_entry_points(&self) -> (usize, usize) {
+    let start = self.get_memory_start_address();
+    (start + self.prologue_location, start + self.epilogue_location)
+  }
+
   pub fn get_memory_start_address(&self) -> usize {
     self.exec_memory.get_memory_area().as_ptr() as *const () as usize
   }
